@@ -209,6 +209,38 @@ func streamCases() []RDBCase {
 	// empty stream (everything deleted, no listpack left) that still has an ID history and a group
 	x5 := &SStream{LastID: sid(9, 9), FirstID: sid(0, 0), MaxDeletedID: sid(9, 9), EntriesAdded: 2, Groups: []SGroup{{Name: []byte("g"), LastID: sid(9, 9), EntriesRead: 2}}}
 	out = append(out, RDBCase{Name: "stream/empty", Feature: "empty", Val: &RValue{Type: 'x', Stream: x5}, Encs: streamEncs(0)})
+	// consumer-group positions: the last-delivered ID of a group at every position relative to the
+	// stream (0-0, before the first entry, the first entry, strictly inside, the last entry, ahead of
+	// the last ID) x entries-read {a valid counter, SCGInvalidEntriesRead = -1 "unknown"}. Redis 7
+	// keeps -1 for a group created by XGROUP CREATE without ENTRIESREAD that was never read, for a
+	// group moved by XGROUP SETID, and for every group whose counter cannot be derived because the
+	// stream is fragmented; rdbSaveLen writes it as the 64-bit length 0x81 ff..ff.
+	// xp1: no deletions (a v1 dump of it lets the reader estimate every counter but the inner ones)
+	xp1 := &SStream{Entries: []SEntry{{ID: sid(20, 0), Fields: ab("1", "2")}, {ID: sid(21, 0), Fields: ab("3", "4")}, {ID: sid(21, 5), Fields: ab("5", "6")}, {ID: sid(23, 0), Fields: ab("7", "8")}},
+		LastID: sid(23, 0), FirstID: sid(20, 0), EntriesAdded: 4,
+		Groups: []SGroup{
+			{Name: []byte("at-zero"), LastID: sid(0, 0), EntriesRead: 0},
+			{Name: []byte("before-first"), LastID: sid(19, 7), EntriesRead: 0},
+			{Name: []byte("first"), LastID: sid(20, 0), EntriesRead: 1},
+			{Name: []byte("inside"), LastID: sid(21, 0), EntriesRead: 2},
+			{Name: []byte("inside-unknown"), LastID: sid(21, 5), EntriesRead: SCGInvalidEntriesRead},
+			{Name: []byte("last"), LastID: sid(23, 0), EntriesRead: 4},
+			{Name: []byte("last-unknown"), LastID: sid(23, 0), EntriesRead: SCGInvalidEntriesRead},
+			{Name: []byte("ahead"), LastID: sid(99, 0), EntriesRead: SCGInvalidEntriesRead},
+		}}
+	out = append(out, RDBCase{Name: "stream/group-positions", Feature: "grouppos", Val: &RValue{Type: 'x', Stream: xp1}, Encs: streamEncs(0), Core: true})
+	// xp2: fragmented (a tombstone in the middle, max-deleted-id inside the stream, trimmed head): every
+	// group behind the deletion has an unknown counter
+	xp2 := &SStream{Entries: []SEntry{{ID: sid(30, 0), Fields: ab("1", "2")}, {ID: sid(31, 0), Fields: ab("3", "4"), Deleted: true}, {ID: sid(32, 0), Fields: ab("5", "6")}, {ID: sid(33, 0), Fields: ab("7", "8")}},
+		LastID: sid(33, 0), FirstID: sid(30, 0), MaxDeletedID: sid(31, 0), EntriesAdded: 6,
+		Groups: []SGroup{
+			{Name: []byte("before-first"), LastID: sid(29, 0), EntriesRead: SCGInvalidEntriesRead},
+			{Name: []byte("first"), LastID: sid(30, 0), EntriesRead: SCGInvalidEntriesRead},
+			{Name: []byte("inside"), LastID: sid(32, 0), EntriesRead: 5},
+			{Name: []byte("last"), LastID: sid(33, 0), EntriesRead: 6},
+			{Name: []byte("ahead"), LastID: sid(33, 1), EntriesRead: SCGInvalidEntriesRead},
+		}}
+	out = append(out, RDBCase{Name: "stream/group-positions-fragmented", Feature: "groupposfrag", Val: &RValue{Type: 'x', Stream: xp2}, Encs: streamEncs(0)})
 	// five entries over three listpacks, integer-looking and long values
 	var es []SEntry
 	for i := 0; i < 5; i++ {
